@@ -54,7 +54,7 @@ func runC13(r *vf.Run) {
 		r.Inconclusive("updog binary not built")
 		return
 	}
-	nds := r.Pick(3, 10)
+	nds := r.Pick(3, 24)
 	for di := 0; di < nds; di++ {
 		did := fmt.Sprintf("ds%d", di)
 		if !r.Want(did) {
@@ -184,6 +184,10 @@ func c13Batches(r *vf.Run, sid string, sp *serverProc, rng *rand.Rand, pool []c0
 		size := rng.Intn(21)
 		if b%15 == 0 {
 			size = 0
+		}
+		if b%10 == 7 {
+			size = []int{64, 65, 66, 100, 128, 129, 257, 300}[rng.Intn(8)] // large batches
+			r.Count("batches_over_64_queries", 1)
 		}
 		var qs []c04Query
 		for i := 0; i < size; i++ {
